@@ -237,7 +237,7 @@ let rec elab (env : env) (s : Sexp.t) : expr * ty =
           if List.mem fn !seen then ill "record %s: field %s twice" name fn; seen := fn :: !seen;
           let ee, te = elab env e in expect ("field " ^ fn) ft te; (fn, ee)
         | _ -> ill "record field") fs in
-    ERecord (cl name, List.map (fun (fn, _) -> cl fn) named, List.map snd named), TRec name
+    ERecord (cl name, List.map (fun (fn, _) -> cl fn) decl, List.map (fun (fn, _) -> cl fn) named, List.map snd named), TRec name
   | L [A "field"; e; f] ->
     let ee, te = elab env e in
     let f = str_of f in
@@ -400,7 +400,7 @@ let rec ge (e : gexpr) : Sexp.t =
   | GBin (o, a, b) -> L [A "bin"; A (op_name o); ge a; ge b]
   | GFunc (ps, body) -> L (A "func" :: L (List.map at ps) :: List.map gs body)
   | GCall (f, args) -> L (A "call" :: ge f :: List.map ge args)
-  | GStructLit (n, fs) -> L (A "struct" :: at n :: List.map (fun (f, e) -> L [at f; ge e]) fs)
+  | GStructLit (n, _, fs) -> L (A "struct" :: at n :: List.map (fun (f, e) -> L [at f; ge e]) fs)
   | GSliceLit es -> L (A "slice" :: List.map ge es)
   | GSel (e, f) -> L [A "sel"; ge e; at f]
 and gs (s : gstmt) : Sexp.t =
@@ -459,7 +459,7 @@ let rec cq_e = function
   | EPipeCall (a, f, args, u) -> "(EPipeCall " ^ cq_e a ^ " " ^ cq_str f ^ " " ^ cq_list cq_e args ^ " " ^ cq_bool u ^ ")"
   | EPipeExt (a, f, args, u) -> "(EPipeExt " ^ cq_e a ^ " " ^ cq_lib f ^ " " ^ cq_list cq_e args ^ " " ^ cq_bool u ^ ")"
   | ETuple es -> "(ETuple " ^ cq_list cq_e es ^ ")"
-  | ERecord (n, fs, es) -> "(ERecord " ^ cq_str n ^ " " ^ cq_list cq_str fs ^ " " ^ cq_list cq_e es ^ ")"
+  | ERecord (n, dl, fs, es) -> "(ERecord " ^ cq_str n ^ " " ^ cq_list cq_str dl ^ " " ^ cq_list cq_str fs ^ " " ^ cq_list cq_e es ^ ")"
   | EField (e, f) -> "(EField " ^ cq_e e ^ " " ^ cq_str f ^ ")"
   | ECtor (u, c, a) -> "(ECtor " ^ cq_str u ^ " " ^ cq_str c ^ " " ^ cq_opt cq_e a ^ ")"
   | EMatchU (e, u, arms, d) ->
